@@ -41,6 +41,8 @@ type HarnessSpec struct {
 	Thorough  TierCfg  `json:"thorough"`
 	What      string   `json:"what"`
 	Solver    string   `json:"solver"` // "" (incremental first) | "fresh" (sliced fresh-context portfolio)
+	Shards    int      `json:"shards"` // run n instances in parallel with params SHARD=i, NSHARDS=n
+	ShardsThorough int `json:"shards_thorough"`
 }
 
 type Spec struct {
@@ -295,6 +297,26 @@ func runCheck(id, tier, only string, replay, verbose bool, extraOv, evOut string
 		if cfg.MaxInstrs == 0 {
 			cfg.MaxInstrs = 5_000_000
 		}
+		shards := h.Shards
+		if tier == "thorough" && h.ShardsThorough > 0 {
+			shards = h.ShardsThorough
+		}
+		var cfgs []*HarnessCfg
+		if shards <= 1 {
+			cfg.Fn = cfg.Name
+			cfgs = []*HarnessCfg{cfg}
+		}
+		for i := 0; i < shards && shards > 1; i++ {
+			c2 := *cfg
+			c2.Fn = cfg.Name
+			c2.Name = fmt.Sprintf("%s#%d", cfg.Name, i)
+			c2.Params = map[string]int{"SHARD": i, "NSHARDS": shards}
+			for k, v := range cfg.Params {
+				c2.Params[k] = v
+			}
+			cfgs = append(cfgs, &c2)
+		}
+		for _, cfg := range cfgs {
 		wg.Add(1)
 		go func(cfg *HarnessCfg) {
 			defer wg.Done()
@@ -305,6 +327,7 @@ func runCheck(id, tier, only string, replay, verbose bool, extraOv, evOut string
 			results = append(results, r)
 			mu.Unlock()
 		}(cfg)
+		}
 	}
 	wg.Wait()
 	sort.Slice(results, func(i, j int) bool { return results[i].Name < results[j].Name })
@@ -379,7 +402,7 @@ func runHarness(prog *ssa.Program, cfg *HarnessCfg, knownOpen map[string]bool, v
 	res = newResult(cfg.Name, cfg.Pkg)
 	res.Params = cfg.Params
 	res.CoverDeclared = cfg.Covers
-	fn := findHarness(prog, cfg.Pkg, cfg.Name)
+	fn := findHarness(prog, cfg.Pkg, cfg.Fn)
 	if fn == nil {
 		res.Unsupported["harness function not found: "+cfg.Pkg+"."+cfg.Name]++
 		return res
